@@ -289,6 +289,8 @@ fn run_cycles(sc: &Value) {
     let full = i(sc, "full") as usize;
     emit_targets(&*pool, nf);
     let rwx0 = watch::rwx_anon_count();
+    let big_every = (i(sc, "big_every") as usize).max(1);
+    let snap: Vec<Vec<u8>> = (1..=nf).map(|f| unsafe { std::slice::from_raw_parts(pool.addr(f) as *const u8, 16) }.to_vec()).collect();
     let mut x = crate::seed_from_env().wrapping_mul(0x9E3779B97F4A7C15) ^ (i(sc, "id") as u64) | 1;
     let mut rnd = move || {
         x ^= x << 13;
@@ -300,7 +302,7 @@ fn run_cycles(sc: &Value) {
     for c in 0..cycles {
         interpose::QUIET_ALL.store(c >= full, SeqCst);
         // 0-4 installations per lifetime as a rule; every 997th lifetime holds many at once (dozens to a few hundred)
-        let k = if c % 997 == 996 { [33usize, 64, 65, 100, 129, 257, 300][(rnd() % 7) as usize] } else { (rnd() % 5) as usize };
+        let k = if c % big_every == big_every - 1 { [33usize, 64, 65, 100, 129, 257, 300][(rnd() % 7) as usize] } else { (rnd() % 5) as usize };
         let mut steps = Vec::new();
         for _ in 0..k {
             let f = 1 + rnd() % nf as u64;
@@ -324,8 +326,10 @@ fn run_cycles(sc: &Value) {
         }
         let m1 = (interpose::N_MMAP_OK.load(SeqCst), interpose::N_MUNMAP_OK.load(SeqCst), interpose::N_FOREIGN.load(SeqCst));
         if c >= full {
+            // every function's entry is byte for byte what it was before the first lifetime
+            let restored = (1..=nf).all(|f| unsafe { std::slice::from_raw_parts(pool.addr(f) as *const u8, 16) } == &snap[f - 1][..]);
             emit(json!({"ev":"Cycle","i":c,"installs":k,"mmaps_ok":m1.0 - m0.0,"munmaps_ok":m1.1 - m0.1,"foreign":m1.2 - m0.2,
-                "live_after":interpose::owned_live(),"lock":lock_state()}));
+                "live_after":interpose::owned_live(),"lock":lock_state(),"restored":restored}));
         }
         if interpose::owned_live() > 256 {
             // hundreds of mappings left behind: the leak is established (every recorded cycle says so); going on would
